@@ -312,7 +312,7 @@ Lemma reach_inv fl st : reach fl st -> uinv fl st.
 Proof.
   induction 1 as [|fl st h R IH].
   - split; simpl; [|congruence]. unfold run. simpl. split; [lia|]. split; [lia|]. intros t. split; [tauto|lia].
-  - destruct h as [l|k|m s|a s]; simpl.
+  - destruct h as [l|k|m s|a s|t]; simpl; [| | | |exact IH].
     + exact IH.
     + destruct IH as (I1 & I2). split; simpl.
       * apply run_retain. exact I1.
@@ -534,4 +534,21 @@ Proof.
   pose proof (reach_step _ _ (HSync 0 []) (reach_step _ _ (HRetain 2)
      (reach_step _ _ (HSync 0 [Ok; Ok; FailAfter]) (reach_step _ _ (HLocal [1;2;3]) reach_init)))) as H.
   vm_compute in H. exact H.
+Qed.
+
+(** ---- the snapshot level never moves the upload position ---------------------------- *)
+
+Definition is_snap (h : hstep) : bool := match h with HSnap _ => true | _ => false end.
+
+(** whatever snapshots appear on the replica, and wherever in the history (in particular
+    AHEAD of the level-0 uploads, right before a fault makes the position be recomputed),
+    every sync returns the same error class, position and client calls and leaves the same
+    level-0 set as in the history without them *)
+Theorem snapshots_ignored_thm : forall hs st,
+  hist_run st (filter (fun h => negb (is_snap h)) hs) = hist_run st hs.
+Proof.
+  induction hs as [|h tl IH]; intros st; [reflexivity|].
+  destruct h as [l|k|m s|a s|t]; cbn [filter is_snap negb].
+  1-4: cbn [hist_run]; destruct (hstep_run st _) as [st1 o]; rewrite IH; reflexivity.
+  cbn [hist_run hstep_run]. rewrite IH. destruct (hist_run st tl). reflexivity.
 Qed.
